@@ -191,6 +191,15 @@ Theorem C17_entity_judgement_sound : forall mc, JudgeC17eP.profile_C17eb mc = tr
 Proof. exact JudgeC17eP.C17_entity_judgement_sound. Qed.
 
 
+(* ---- source tie, third wave (DESIGN 11.7): the input reader / Negate / SwizzleAxis regenerated from the Rust source ---- *)
+From BEI Require Generated.ReaderSrc Generated.ModifSrc Proofs.SrcTie3P.
+Theorem C17_source_consume : forall r c dev i, ReaderSrc.InputReader_consume_src (SrcTie3P.reader_of r c dev) i = SrcTie3P.reader_of r (Reader.consume c dev i) dev.
+Proof. exact SrcTie3P.InputReader_consume_tie. Qed.
+
+Theorem C17_source_reset : forall x, ReaderSrc.ConsumedInput_reset_src x = SrcTie3P.consumed_of Reader.consumed_reset.
+Proof. exact SrcTie3P.ConsumedInput_reset_tie. Qed.
+
+
 Print Assumptions C17_cequiv_refl.
 Print Assumptions C17_cequiv_sym.
 Print Assumptions C17_cequiv_trans.
@@ -221,3 +230,5 @@ Print Assumptions C17_unbound_gamepads.
 Print Assumptions C17_deterministic.
 Print Assumptions C17_app_judgement_sound.
 Print Assumptions C17_entity_judgement_sound.
+Print Assumptions C17_source_consume.
+Print Assumptions C17_source_reset.
